@@ -19,6 +19,7 @@ ASSUMPTIONS = ["C02.R3 (BLOCKED published after the context is saved) and C04 (m
                "ABTD_futex_* behave like Linux futex wait/wake"]
 RULES_DOC = dict(common.SHARED_DOC)
 RULES_DOC["X4"] = common.X4_DOC
+RULES_DOC["R7"] = "= C19.R2/R3: a timed-out waiter is unlinked completely (both neighbours, head and tail) before the wait returns: a later signal is not consumed by a stale node"
 RULES_DOC.update({
     "R1": "wait/timedwait: mutex unlock inside the cond-lock section, then lock-transferring enqueue on the same cond, mutex re-locked last",
     "R2": "signal/broadcast: exactly one wait-list operation bracketed by the cond lock",
@@ -387,3 +388,6 @@ def run(P, rep, tier):
     rule_R4(P, rep, active_wait=(v == "active_wait"))
     rule_R5(P, rep)
     rule_R6(P, rep)
+    from . import C19        # lazy: C19 imports this module
+    common.borrow(rep, P, C19.rule_R2, "R7")
+    common.borrow(rep, P, C19.rule_R3, "R7")
